@@ -445,10 +445,18 @@ def _reach(objs):
     return seen
 
 
+def _resolve(contract):
+    if not contract.target:
+        return None
+    if hasattr(contract, "resolve"):
+        return contract.resolve()
+    return front.resolve(contract.target)
+
+
 def explore(contract, case, contracts, max_paths=None, loop_mode=None):
     """All paths of the target function for one case.  Returns (paths, info); a path is a dict with
     pc, outcome, requires, writes, symbols, args."""
-    fn = front.resolve(contract.target) if contract.target else None
+    fn = _resolve(contract)
     max_paths = max_paths or MAX_PATHS
     work = [[]]
     paths = []
@@ -619,7 +627,7 @@ def _finish(r, contract, case, ctx, cname, want_models, fn, extra=None):
 
 def replay(contract, case, values, clause=None):
     """Run the real function natively on the concretised counter-model and evaluate the contract."""
-    fn = front.resolve(contract.target) if contract.target else None
+    fn = _resolve(contract)
     E = ConcE(values)
     try:
         args, kwargs = contract.build(E, case)
